@@ -177,6 +177,17 @@ try:
         r2 = clone(req); j = R.randrange(3)
         r2["bundles"][j]["sigs"][0]["data"] = flip(r2["bundles"][j]["sigs"][0]["data"], R.randrange(64))
         C.judge("one-bad-bundle", pol(3), xml=ksrxml.render_ksr(r2), desc={"bundle": j}, strict=False)
+    # a later bundle lists somebody else's key under an identifier an earlier bundle used, "proved" by the earlier key:
+    # possession must be judged against the key that is listed, in every bundle (no carry-over between bundles or requests)
+    for rnd in range(3 * SCALE):
+        same_alg = [k for k in KEYS if k["alg"] == KEYS[0]["alg"]]
+        a, v = R.sample(same_alg, 2)
+        v2 = dict(v, id=a["id"])                                      # the other key, relabelled with a's identifier
+        good = request([[a], [v2]])                                   # honest: each bundle signed by the key it lists
+        C.judge("identifier-reused-honestly", pol(2), xml=ksrxml.render_ksr(good), strict=False)
+        forged = request([[a], [v2]], sigmaker=lambda keys, k, inc, exp: ksrxml.mk_sig(dict(k, priv=a["priv"]), keys, inc, exp))
+        C.judge("other-key-under-known-identifier-signed-by-first-key", pol(2), xml=ksrxml.render_ksr(forged), strict=False)
+        C.judge("other-key-under-known-identifier-keys-match-on", pol(2, keys_match=True), xml=ksrxml.render_ksr(forged), strict=False)
 finally:
     C.close()
 
